@@ -581,6 +581,22 @@ theorem sessOf_after {b b' : B} {c : Nat} {cn : Conn} {s : Sess} (hc : b.getConn
     exact getSess_setSess_same b { s with pub2in := q }
   exact sessOf_eq h1 h2
 
+theorem mem_takeWhile {α} (p : α → Bool) (l : List α) (a : α) (h : a ∈ l.takeWhile p) : p a = true := by
+  induction l with
+  | nil => simp at h
+  | cons b l ih =>
+    rw [List.takeWhile_cons] at h
+    split at h
+    · rcases List.mem_cons.mp h with rfl | h'
+      · assumption
+      · exact ih h'
+    · simp at h
+
+theorem q2Acked_rel_marked (q : List QEntry) : ∀ e ∈ (q2Acked q).2, e.state = tPUBREL := by
+  intro e he
+  have := mem_takeWhile _ _ _ he
+  simpa using this
+
 /-- with the oldest entry still waiting, collecting releases nothing -/
 theorem q2Acked_headOpen {q : List QEntry} (h : QInv q) : q2Acked q = (q, []) := by
   cases q with
